@@ -117,16 +117,23 @@ def _run_one_inner(args):
 
 
 def _child(args, path):
+    """body of a worker process: never returns into the caller's code"""
     try:
-        r = _run_one(args)
-    except BaseException as e:       # noqa
-        import traceback
-        r = {"task": getattr(args[0], "name", "?"), "status": "crash", "detail": "%s\n%s" % (e, traceback.format_exc()), "obligations": []}
-    tmp = path + ".tmp"
-    with open(tmp, "w") as f:
-        json.dump(r, f)
-    os.replace(tmp, path)
-    os._exit(0)
+        try:
+            r = _run_one(args)
+        except BaseException as e:       # noqa
+            import traceback
+            r = {"task": getattr(args[0], "name", "?"), "status": "crash", "detail": "%s\n%s" % (e, traceback.format_exc()), "obligations": []}
+        tmp = path + ".tmp"
+        try:
+            with open(tmp, "w") as f:
+                json.dump(r, f, default=str)
+        except BaseException as e:       # noqa
+            with open(tmp, "w") as f:
+                json.dump({"task": getattr(args[0], "name", "?"), "status": "crash", "detail": "result not serialisable: %s" % e, "obligations": []}, f)
+        os.replace(tmp, path)
+    finally:
+        os._exit(0)
 
 
 def run_tasks(tasks, root, procs=None, use_cache=True):
